@@ -152,20 +152,6 @@ func init() {
 		},
 		"strings.ToUpper": func(e *Exec, a []Value) Value { return asciiMap(e, a[0].(Str), 'a', 'z', 0xE0) },
 		"strings.ToLower": func(e *Exec, a []Value) Value { return asciiMap(e, a[0].(Str), 'A', 'Z', 0x20) },
-		"strings.Split": func(e *Exec, a []Value) Value {
-			s, sep := a[0].(Str), a[1].(Str)
-			if !s.Concrete() || !sep.Concrete() {
-				e.cut("unsupported-symbolic:Split")
-			}
-			return e.strSlice(strings.Split(s.s, sep.s))
-		},
-		"strings.Fields": func(e *Exec, a []Value) Value {
-			s := a[0].(Str)
-			if !s.Concrete() {
-				e.cut("unsupported-symbolic:Fields")
-			}
-			return e.strSlice(strings.Fields(s.s))
-		},
 		"strings.Clone":                func(e *Exec, a []Value) Value { return a[0] },
 		"internal/stringslite.Clone":   func(e *Exec, a []Value) Value { return a[0] },
 		"(*regexp.Regexp).MatchString": func(e *Exec, a []Value) Value {
